@@ -427,6 +427,9 @@ class _SktimeForecaster(BaseForecaster):
             if cv is not None
             else SlidingWindowSplitter(fh=self.fh, start_with_window=False)
         )
+        if isinstance(self, _RequiredForecastingHorizonMixin):
+            # a forecaster fitted for one horizon cannot serve another one
+            self._set_fh(cv.get_fh())
         return self._predict_moving_cutoff(
             y,
             cv,
@@ -635,6 +638,9 @@ class _BaseWindowForecaster(_SktimeForecaster):
                 window_length=self.window_length_,
                 start_with_window=False,
             )
+        if isinstance(self, _RequiredForecastingHorizonMixin):
+            # a forecaster fitted for one horizon cannot serve another one
+            self._set_fh(cv.get_fh())
         return self._predict_moving_cutoff(
             y,
             cv,
